@@ -34,6 +34,10 @@ Keep_graph_q(x) == ~x.noWrites /\ (x.dstB = "fresh" => x.borB) /\ (x.spell = "va
 Dom_sources == D({"none"}, {<<"AA-MIB">>, <<"AA-MIB", "BB-MIB">>, <<"afile", "AA-MIB">>, <<"afile">>}, Src3, Src3, Src3, BB, {"AB", "BA"}, {"exact"},
                  {"absent", "fresh"}, {"absent"}, BB, FF, TT, BB, FF, BB, FF, FF, {"no"}, FF, FF)
 
+\* liveness slice (small): cycle of imports by variant names, alias, every source state
+Dom_live == D({"none", "badOpt"}, {<<"AA-MIB">>, <<"afile", "BB-MIB">>}, Src3, {"missing"}, Src3, BB, {"both"}, {"exact", "variant"},
+              {"absent"}, {"fresh"}, FF, TT, TT, BB, FF, BB, FF, FF, {"no"}, BB, FF)
+
 \* reporting slice: index, quiet, texts/borrower flavour, dry-run / no-writes
 Dom_report == D({"none"}, {<<"AA-MIB">>}, {"ok"}, {"missing"}, Src3, FF, {"AB"}, {"exact"}, Dst3, {"absent"}, FF, BB, TT,
                 FF, FF, BB, BB, BB, {"no", "before", "after"}, BB, BB)
